@@ -12,7 +12,8 @@ struct StaticRegion {
     uintptr_t lo, hi;  // page aligned, pads included
 };
 bool staticsAvailable();
-const StaticRegion *staticRegions();  // 2 entries (data, bss)
+const StaticRegion *staticRegions();  // 4 entries: data, bss of the simulated copy; data, bss of the reference copy
 void staticsInit();                   // validates the layout, takes the pristine snapshot
 void staticsRestore();                // pages must be writable when called
+void staticsRestoreRef();             // the reference copy's regions only
 size_t staticsLibraryBytes();         // pad pages excluded
